@@ -80,6 +80,9 @@ func (u *Universe) Prune(roots ...*Type) {
 	u.order = order
 }
 
+// CustomTyperefFile is the hand-written implementation of custom typeref `name` over prim in package pkg.
+func CustomTyperefFile(pkg, name string, prim Kind) string { return customTyperefFile(pkg, name, prim) }
+
 func customTyperefFile(pkg, name string, prim Kind) string {
 	goPrim := map[Kind]string{Int32: "int32", Int64: "int64", Float32: "float32", Float64: "float64", Bool: "bool", String: "string", Bytes: "[]byte"}[prim]
 	hash := map[Kind]string{Int32: "HashInt32", Int64: "HashInt64", Float32: "HashFloat32", Float64: "HashFloat64", Bool: "HashBool", String: "HashString", Bytes: "HashBytes"}[prim]
